@@ -132,6 +132,15 @@ func timerPatience(d time.Duration) time.Duration {
 // letTimerFlushWithWindow lets one timer flush through like letTimerFlush, but parks the timer goroutine between its LevelDB
 // write and the batch reset and runs `during` (which must not wait for the flush to end) while it is parked there.
 // Returns false when the window was not reached (other persister kinds, restructured code): `during` was then NOT run.
+// flushSlack: how long a timer flush that HAS started is given to reach its end (a synced LevelDB write on a machine whose
+// disk is busy with other checks can take many seconds; giving up early would show the harness a half-done flush)
+func flushSlack() time.Duration {
+	if os.Getenv("SVH_TIMER_PATIENCE_MS") != "" {
+		return 10 * time.Second // minimisation re-runs
+	}
+	return 90 * time.Second
+}
+
 func letTimerFlushWithWindow(g *timerGate, patience time.Duration, during func()) bool {
 	patience = timerPatience(patience)
 	if g.blind.Load() {
@@ -154,12 +163,12 @@ func letTimerFlushWithWindow(g *timerGate, patience time.Duration, during func()
 		g.leaveWin <- struct{}{}
 	case <-g.done:
 		return false
-	case <-time.After(5 * time.Second):
+	case <-time.After(flushSlack()):
 		return false
 	}
 	select {
 	case <-g.done:
-	case <-time.After(5 * time.Second):
+	case <-time.After(flushSlack()):
 	}
 	return reached
 }
@@ -183,7 +192,7 @@ func letTimerFlush(g *timerGate, patience time.Duration) bool {
 	g.release <- struct{}{}
 	select {
 	case <-g.done:
-	case <-time.After(5 * time.Second):
+	case <-time.After(flushSlack()):
 		return false
 	}
 	return true
